@@ -209,6 +209,20 @@ def check_schur(case):
             if diag_ok:
                 out.le(site + ":Hermitian input: diag T carries the eigenvalues", float(np.max(np.abs(np.sort(d) - np.sort(lam)))),
                        10.0 * n * tau * max(1.0, an) + 2 * simerr + 1e-300)
+    if case_flag(A, 4, salt=3):
+        # the default call form (no diagnostics): a (Q, T) pair that satisfies the same similarity
+        kw2 = {k_: v_ for k_, v_ in kw.items() if k_ != "verbose"}
+        site2 = site + "[return_diagnostics=False]"
+        ok2, r2 = out.call(site2, quiet, f, Aq, max_iter=max_iter, tol=tol, **kw2)
+        if ok2 and out.true(site2 + ":returns (Q, T)", isinstance(r2, tuple) and len(r2) == 2, f"{type(r2).__name__} of length {len(r2) if isinstance(r2, tuple) else '-'}"):
+            Q2, T2 = F(r2[0]), F(r2[1])
+            if out.true(site2 + ":shapes", Q2.shape == (n, n, 4) and T2.shape == (n, n, 4), f"{Q2.shape} {T2.shape}"):
+                sw2 = max(sweeps, max_iter if not conv else sweeps)
+                out.le(site2 + ":Q unitary", ref.unitarity_defect(Q2), C2 * n * U_ * (1 + max_iter))
+                out.le(site2 + ":Q T Q^H = A", ref.fro(ref.qmm(ref.qmm(Q2, T2), ref.conjT(Q2)) - A),
+                       C1 * n * (1 + max_iter) * tau * max(1.0, an) + C2 * n * U_ * (n + max_iter) * an + 1e-300,
+                       f"||A||={an:.3e} tol={tol:g}")
+        out.label("also_without_diagnostics")
     out.nontrivial = n >= 3 and sweeps >= 1
     out.sample = {"n": n, "variant": vt, "kind": case["kind"], "converged": conv, "sweeps": sweeps}
     return out
